@@ -172,8 +172,8 @@ def _run_hier(ctx, spec, rng):
     ppt = None if res is None else float(np.real(res[0]))
     # the dimension argument in its documented forms: the pair, a single integer d (meaning [d, N/d]), or omitted for equal dimensions
     dimarg = int(dims[0]) if (r // 3) % 2 == 1 else list(dims)
-    if dims[0] == dims[1] and r % 4 == 3:
-        dimarg = None
+    if (dims[0] == dims[1] or dims == [2, 3]) and r % 4 == 3:
+        dimarg = None  # omitted: equal dimensions, or - for a total of 6 - the first dimension round(sqrt(6)) = 2
     dimform = "pair" if isinstance(dimarg, list) else ("int" if dimarg is not None else "omitted")
     l1 = _solve(ctx, symmetric_extension_hierarchy, _fresh(e), list(p), 1, dimarg)
     do2 = dims == [2, 2] or r % 3 == 0 or ctx.tier == "thorough"
